@@ -49,18 +49,27 @@ def parseMsg (s : String) : Option Msg :=
 def parseOptMsg (s : String) : Option (Option Msg) :=
   if s = "none" then some none else (parseMsg s).map some
 
+def parseQs (q : String) : Option (List QEntry) :=
+  if q = "-" then some [] else (q.splitOn ";").mapM parseQEntry
+
+/-- body: `<Q>~<edns>~<n|0|1>~<0|1>` -/
+def parseBodyToks : List String → Option Body
+  | [q, e, b, t] => do
+    let q ← parseQs q
+    let e ← e.toNat?
+    let b ← if b = "n" then some none else (parseBool b).map some
+    let t ← parseBool t
+    some ⟨q, e, b, t⟩
+  | _ => none
+
+/-- datagram: `<hex octets>~<body>` -/
 def parseWire (s : String) : Option Wire :=
   match s.splitOn "~" with
-  | ["S"] => some .short
-  | ["B", m, fe] => do
-    let m ← parseMsg m
-    let fe ← parseBool fe
-    some (.broken m fe)
-  | ["F", m, tr] => do
-    let m ← parseMsg m
-    let tr ← parseBool tr
-    some (.full m tr)
-  | _ => none
+  | h :: rest => do
+    let h ← ofHex h
+    let b ← parseBodyToks rest
+    some ⟨h, b⟩
+  | [] => none
 
 def parseUEv (s : String) : Option UEv :=
   match s.splitOn "=" with
@@ -97,22 +106,48 @@ def parseSEv (s : String) : Option SEv :=
 def parseBlocks (s : String) : Option (List Nat) :=
   if s = "-" then some [] else (s.splitOn ",").mapM (·.toNat?)
 
-/-- `P<hex>=<wire>` -/
-def parsePEntry (s : String) : Option (Bytes × Wire) :=
+/-- `P<hex>=<body>` -/
+def parsePEntry (s : String) : Option (Bytes × Body) :=
   match stripPrefix 'P' s with
   | some r =>
     match r.splitOn "=" with
     | [h, w] => do
       let h ← ofHex h
-      let w ← parseWire w
-      some (h, w)
+      let b ← parseBodyToks (w.splitOn "~")
+      some (h, b)
     | _ => none
   | none => none
 
-def lookupParse (tbl : List (Bytes × Wire)) (frame : Bytes) : Wire :=
+def lookupBody (tbl : List (Bytes × Body)) (frame : Bytes) : Body :=
   match tbl.find? (fun p => p.1 == frame) with
   | some p => p.2
-  | none => .short
+  | none => ⟨[], 0, none, false⟩
+
+def known (tbl : List (Bytes × Body)) (frame : Bytes) : Bool :=
+  frame.length < 12 || tbl.any (fun p => p.1 == frame)
+
+def showTcp (frame? : Option Bytes) (r : Bytes × Except Err TRet) : String :=
+  match frame? with
+  | some frame => s!"sent={toHexP r.1} noparse {toHexP frame}"
+  | none =>
+    match r.2 with
+    | .ok t => s!"sent={toHexP r.1} ok id={t.msg.id} flags={t.msg.flags} frame={toHexP t.frame} t={t.recvTime}"
+    | .error e => s!"sent={toHexP r.1} err {e.toString}"
+
+def showRecvTcp (r : Except Err TRet) : String :=
+  match r with
+  | .ok r => s!"ok id={r.msg.id} flags={r.msg.flags} frame={toHexP r.frame} rest={toHexP (stream r.rest)} t={r.recvTime}"
+  | .error e => "err " ++ e.toString
+
+def showF (r : Bytes × Except Err FRet) : String :=
+  match r.2 with
+  | .ok f => s!"sent={toHexP r.1} ok tcp={if f.usedTcp then 1 else 0} id={f.msg.id} flags={f.msg.flags} t={f.time}"
+  | .error e => s!"sent={toHexP r.1} err {e.toString}"
+
+def unknownFrame (tbl : List (Bytes × Body)) (r : Except Err (Bytes × List REv × Nat)) : Option Bytes :=
+  match r with
+  | .ok (frame, _, _) => if known tbl frame then none else some frame
+  | .error _ => none
 
 def showExceptB (r : Except Err Bool) : String :=
   match r with
@@ -134,7 +169,146 @@ def splitSlash : List String → List String × List String
 end N18
 open N18
 
-def handleC18 : List String → Option String
+def handleMore : List String → Option String
+  | op :: coe :: q :: af :: dest :: timeout :: opts :: blocks :: now :: evs =>
+    if op = "c18.udp" || op = "c18.audp" then do
+      let coe ← parseBool coe
+      let q ← parseMsg q
+      let af ← af.toNat?
+      let dest ← parseAddr dest
+      let timeout ← parseOptNat timeout
+      let o ← parseOpts opts
+      let blocks ← parseBlocks blocks
+      let now ← now.toNat?
+      let evs ← evs.mapM parseUEv
+      some (showURet (if op = "c18.udp" then udp coe q af dest timeout o blocks evs now
+                      else udpA coe q af dest timeout o blocks evs now))
+    else if op = "c18.fallback" || op = "c18.afallback" then do
+      -- c18.fallback q qwire af dest timeout opts ublocks now  ptbl / uevs / sevs|tcpblocks / revs
+      let qwire ← ofHex q
+      let q ← parseMsg coe
+      let af ← af.toNat?
+      let dest ← parseAddr dest
+      let timeout ← parseOptNat timeout
+      let o ← parseOpts opts
+      let ublocks ← parseBlocks blocks
+      let now ← now.toNat?
+      let (ptoks, r1) := splitSlash evs
+      let (utoks, r2) := splitSlash r1
+      let (stoks, rtoks) := splitSlash r2
+      let tbl ← ptoks.mapM parsePEntry
+      let uevs ← utoks.mapM parseUEv
+      let revs ← rtoks.mapM parseREv
+      if op = "c18.fallback" then do
+        let sevs ← stoks.mapM parseSEv
+        some (showF (udpWithFallback q qwire af dest timeout o ublocks uevs (lookupBody tbl) sevs revs now))
+      else do
+        let tb ← stoks.mapM (·.toNat?)
+        some (showF (udpWithFallbackA q qwire af dest timeout o ublocks uevs (lookupBody tbl) tb revs now))
+    else none
+  | _ => none
+
+def handleStream : List String → Option String
+  | "c18.netread" :: count :: timeout :: now :: evs => do
+    let count ← count.toNat?
+    let timeout ← parseOptNat timeout
+    let now ← now.toNat?
+    let evs ← evs.mapM parseREv
+    some (match netRead evs count (expiration timeout now) now [] with
+      | .ok (b, rest, t) => s!"ok {toHexP b} rest={streamRest rest} t={t}"
+      | .error e => "err " ++ e.toString)
+  | "c18.areadexactly" :: count :: timeout :: now :: evs => do
+    let count ← count.toNat?
+    let timeout ← parseOptNat timeout
+    let now ← now.toNat?
+    let evs ← evs.mapM parseREv
+    some (match readExactly evs count (expiration timeout now) now with
+      | .ok (b, rest, t) => s!"ok {toHexP b} rest={streamRest rest} t={t}"
+      | .error e => "err " ++ e.toString)
+  | "c18.netwrite" :: data :: timeout :: now :: sevs => do
+    let data ← ofHex data
+    let timeout ← parseOptNat timeout
+    let now ← now.toNat?
+    let sevs ← sevs.mapM parseSEv
+    some (match netWrite sevs data (expiration timeout now) now [] with
+      | (sent, .ok (_, t)) => s!"sent={toHexP sent} ok t={t}"
+      | (sent, .error e) => s!"sent={toHexP sent} err {e.toString}")
+  | "c18.sendtcp" :: data :: timeout :: now :: sevs => do
+    let data ← ofHex data
+    let timeout ← parseOptNat timeout
+    let now ← now.toNat?
+    let sevs ← sevs.mapM parseSEv
+    some (match sendTcp data sevs (expiration timeout now) now with
+      | (sent, .ok (_, t)) => s!"sent={toHexP sent} ok t={t}"
+      | (sent, .error e) => s!"sent={toHexP sent} err {e.toString}")
+  | "c18.asendtcp" :: data :: timeout :: now :: blocks => do
+    let data ← ofHex data
+    let timeout ← parseOptNat timeout
+    let now ← now.toNat?
+    let blocks ← blocks.mapM (·.toNat?)
+    some (match sendTcpA data blocks (expiration timeout now) now with
+      | (sent, .ok t) => s!"sent={toHexP sent} ok t={t}"
+      | (sent, .error e) => s!"sent={toHexP sent} err {e.toString}")
+  | "c18.recvtcp" :: timeout :: now :: it :: toks => do
+    let timeout ← parseOptNat timeout
+    let now ← now.toNat?
+    let it ← parseBool it
+    let (ptoks, etoks) := splitSlash toks
+    let tbl ← ptoks.mapM parsePEntry
+    let evs ← etoks.mapM parseREv
+    let exp := expiration timeout now
+    some (match unknownFrame tbl (receiveFrame evs exp now) with
+      | some frame => "noparse " ++ toHexP frame
+      | none => showRecvTcp (receiveTcp (lookupBody tbl) it evs exp now))
+  | "c18.arecvtcp" :: timeout :: now :: it :: ie :: toks => do
+    let timeout ← parseOptNat timeout
+    let now ← now.toNat?
+    let it ← parseBool it
+    let ie ← parseBool ie
+    let (ptoks, etoks) := splitSlash toks
+    let tbl ← ptoks.mapM parsePEntry
+    let evs ← etoks.mapM parseREv
+    let exp := expiration timeout now
+    some (match unknownFrame tbl (receiveFrameA evs exp now) with
+      | some frame => "noparse " ++ toHexP frame
+      | none => showRecvTcp (receiveTcpA (lookupBody tbl) it ie evs exp now))
+  | "c18.tcp" :: q :: qwire :: timeout :: it :: now :: toks => do
+    let q ← parseMsg q
+    let qwire ← ofHex qwire
+    let timeout ← parseOptNat timeout
+    let it ← parseBool it
+    let now ← now.toNat?
+    let (ptoks, toks2) := splitSlash toks
+    let (stoks, rtoks) := splitSlash toks2
+    let tbl ← ptoks.mapM parsePEntry
+    let sevs ← stoks.mapM parseSEv
+    let revs ← rtoks.mapM parseREv
+    let exp := expiration timeout now
+    let unknown : Option Bytes :=
+      match sendTcp qwire sevs exp now with
+      | (_, .ok (_, now1)) => unknownFrame tbl (receiveFrame revs exp now1)
+      | _ => none
+    some (showTcp unknown (tcp q qwire timeout it (lookupBody tbl) sevs revs now))
+  | "c18.atcp" :: q :: qwire :: timeout :: it :: now :: toks => do
+    let q ← parseMsg q
+    let qwire ← ofHex qwire
+    let timeout ← parseOptNat timeout
+    let it ← parseBool it
+    let now ← now.toNat?
+    let (ptoks, toks2) := splitSlash toks
+    let (stoks, rtoks) := splitSlash toks2
+    let tbl ← ptoks.mapM parsePEntry
+    let blocks ← stoks.mapM (·.toNat?)
+    let revs ← rtoks.mapM parseREv
+    let exp := expiration timeout now
+    let unknown : Option Bytes :=
+      match sendTcpA qwire blocks exp now with
+      | (_, .ok now1) => unknownFrame tbl (receiveFrameA revs exp now1)
+      | _ => none
+    some (showTcp unknown (tcpA q qwire timeout it (lookupBody tbl) blocks revs now))
+  | _ => none
+
+def handleDgram : List String → Option String
   | ["c18.pton", af, h] => do
     let af ← af.toNat?
     let h ← ofHex h
@@ -170,94 +344,25 @@ def handleC18 : List String → Option String
       | .error .formError => "err FormError"
       | .error .other => "err OtherParse"
       | .error (.truncated m) => s!"err Truncated id={m.id} flags={m.flags} nq={m.question.length}")
-  | "c18.recvudp" :: coe :: af :: dest :: timeout :: opts :: query :: now :: evs => do
-    let coe ← parseBool coe
-    let af ← af.toNat?
-    let dest ← parseOptAddr dest
-    let timeout ← parseOptNat timeout
-    let o ← parseOpts opts
-    let query ← parseOptMsg query
-    let now ← now.toNat?
-    let evs ← evs.mapM parseUEv
-    some (showURet (receiveUdp coe af dest (expiration timeout now) o query evs now 0))
-  | "c18.udp" :: coe :: q :: af :: dest :: timeout :: opts :: blocks :: now :: evs => do
-    let coe ← parseBool coe
-    let q ← parseMsg q
-    let af ← af.toNat?
-    let dest ← parseAddr dest
-    let timeout ← parseOptNat timeout
-    let o ← parseOpts opts
-    let blocks ← parseBlocks blocks
-    let now ← now.toNat?
-    let evs ← evs.mapM parseUEv
-    some (showURet (udp coe q af dest timeout o blocks evs now))
-  | "c18.netread" :: count :: timeout :: now :: evs => do
-    let count ← count.toNat?
-    let timeout ← parseOptNat timeout
-    let now ← now.toNat?
-    let evs ← evs.mapM parseREv
-    some (match netRead evs count (expiration timeout now) now [] with
-      | .ok (b, rest, t) => s!"ok {toHexP b} rest={streamRest rest} t={t}"
-      | .error e => "err " ++ e.toString)
-  | "c18.netwrite" :: data :: timeout :: now :: sevs => do
-    let data ← ofHex data
-    let timeout ← parseOptNat timeout
-    let now ← now.toNat?
-    let sevs ← sevs.mapM parseSEv
-    some (match netWrite sevs data (expiration timeout now) now [] with
-      | (sent, .ok (_, t)) => s!"sent={toHexP sent} ok t={t}"
-      | (sent, .error e) => s!"sent={toHexP sent} err {e.toString}")
-  | "c18.sendtcp" :: data :: timeout :: now :: sevs => do
-    let data ← ofHex data
-    let timeout ← parseOptNat timeout
-    let now ← now.toNat?
-    let sevs ← sevs.mapM parseSEv
-    some (match sendTcp data sevs (expiration timeout now) now with
-      | (sent, .ok (_, t)) => s!"sent={toHexP sent} ok t={t}"
-      | (sent, .error e) => s!"sent={toHexP sent} err {e.toString}")
-  | "c18.recvtcp" :: timeout :: now :: it :: coe :: toks => do
-    let timeout ← parseOptNat timeout
-    let now ← now.toNat?
-    let it ← parseBool it
-    let coe ← parseBool coe
-    let (ptoks, etoks) := splitSlash toks
-    let tbl ← ptoks.mapM parsePEntry
-    let evs ← etoks.mapM parseREv
-    let exp := expiration timeout now
-    some (match receiveFrame evs exp now with
-      | .error e => "err " ++ e.toString
-      | .ok (frame, _, _) =>
-        if frame.length ≥ 12 && !(tbl.any (fun p => p.1 == frame)) then "noparse " ++ toHexP frame
-        else match receiveTcp (lookupParse tbl) it coe evs exp now with
-          | .ok r => s!"ok id={r.msg.id} flags={r.msg.flags} frame={toHexP r.frame} rest={streamRest r.rest} t={r.recvTime}"
-          | .error e => "err " ++ e.toString)
-  | "c18.tcp" :: q :: qwire :: timeout :: it :: now :: toks => do
-    let q ← parseMsg q
-    let qwire ← ofHex qwire
-    let timeout ← parseOptNat timeout
-    let it ← parseBool it
-    let now ← now.toNat?
-    let (ptoks, toks2) := splitSlash toks
-    let (stoks, rtoks) := splitSlash toks2
-    let tbl ← ptoks.mapM parsePEntry
-    let sevs ← stoks.mapM parseSEv
-    let revs ← rtoks.mapM parseREv
-    let exp := expiration timeout now
-    let unknown : Option Bytes :=
-      match sendTcp qwire sevs exp now with
-      | (_, .ok (_, now1)) =>
-        (match receiveFrame revs exp now1 with
-         | .ok (frame, _, _) => if frame.length ≥ 12 && !(tbl.any (fun p => p.1 == frame)) then some frame else none
-         | .error _ => none)
-      | _ => none
-    some (match tcp q qwire timeout it (lookupParse tbl) sevs revs now with
-      | (sent, r) =>
-        match unknown with
-        | some frame => s!"sent={toHexP sent} noparse {toHexP frame}"
-        | none =>
-          match r with
-          | .ok r => s!"sent={toHexP sent} ok id={r.msg.id} flags={r.msg.flags} frame={toHexP r.frame} t={r.recvTime}"
-          | .error e => s!"sent={toHexP sent} err {e.toString}")
-  | _ => none
+  | op :: coe :: af :: dest :: timeout :: opts :: query :: now :: evs =>
+    if op = "c18.recvudp" || op = "c18.arecvudp" then do
+      let coe ← parseBool coe
+      let af ← af.toNat?
+      let dest ← parseOptAddr dest
+      let timeout ← parseOptNat timeout
+      let o ← parseOpts opts
+      let query ← parseOptMsg query
+      let now ← now.toNat?
+      let evs ← evs.mapM parseUEv
+      let exp := expiration timeout now
+      some (showURet (if op = "c18.recvudp" then receiveUdp coe af dest exp o query evs now 0
+                      else receiveUdpA coe af dest exp o query evs (timeoutOf exp now) now 0))
+    else handleMore (op :: coe :: af :: dest :: timeout :: opts :: query :: now :: evs)
+  | toks => handleMore toks
+
+def handleC18 : List String → Option String := fun t =>
+  match handleDgram t with
+  | some r => some r
+  | none => handleStream t
 
 end Driver
